@@ -559,7 +559,7 @@ func run(p *kernel.Plan) (res *kernel.Result) {
 		for _, c := range calls[tk+1] {
 			n := seen[string(c.tag)]
 			delete(seen, string(c.tag))
-			isTimeout := c.err != nil && c.err.Error() == "websocket: write timeout"
+			isTimeout := c.err != nil && c.err != websocket.ErrCloseSent && (c.err.Error() == "websocket: write timeout" || c.expired)
 			switch {
 			case c.err == nil && n != 1:
 				return res.Fail("C15/control-lost-or-duplicated", "%s returned nil but its frame is on the wire %d times", c.what, n)
@@ -595,8 +595,8 @@ func run(p *kernel.Plan) (res *kernel.Result) {
 				if c.err == websocket.ErrCloseSent {
 					continue
 				}
-				if c.err != nil && c.err.Error() == "websocket: write timeout" && c.expired {
-					continue // its own deadline had passed: not demanded
+				if c.err != nil && c.expired {
+					continue // its own deadline had passed: the timeout error is as good
 				}
 				return res.Fail("C15/write-after-close-accepted", "%s was invoked at step %d, after the Close frame reached the wire at step %d, and returned %v instead of the close-sent error", c.what, c.step0, closeFrameStep, c.err)
 			}
